@@ -1000,7 +1000,10 @@ func (s *Store) monitorLeaseAsPrimary(ctx context.Context, lease Lease) error {
 			return nil
 
 		case nodeID := <-lease.HandoffCh():
-			if err := s.processHandoff(ctx, nodeID, lease); err != nil {
+			if err := s.processHandoff(ctx, nodeID, lease); err == ErrLeaseExpired {
+				// The renewal that precedes a handoff found the lease gone.
+				return err
+			} else if err != nil {
 				log.Printf("%s: handoff unsuccessful, continuing as primary", FormatNodeID(s.id))
 				continue
 			}
